@@ -953,6 +953,17 @@ fn parse_number(cursor: &mut Cursor) -> Result<Option<usize>, Error> {
             )
             .with_source(e)
         }));
+        // widths and precisions are allocation sizes and the standard
+        // formatting machinery only supports 16 bit values for them.
+        if num > u16::MAX as usize {
+            return Err(Error::new(
+                ErrorKind::InvalidOperation,
+                format!(
+                    "integer in the format string at offset {} is too large",
+                    cursor.position()
+                ),
+            ));
+        }
         Ok(Some(num))
     }
 }
